@@ -442,10 +442,7 @@ def mem2_newton_solver(
         jacobian = mem2_jacobian(
             current_iterate, twiddle_factors, direction_increment, jacobian
         )
-        try:
-            update_iterate = solve_cholesky(jacobian, -current_func)
-        except Exception:
-            update_iterate = np.linalg.lstsq(jacobian, -current_func, rcond=rcond)[0]
+        update_iterate = solve_newton_update(jacobian, -current_func, rcond)
 
         magnitude_current_iterate = np.linalg.norm(current_iterate)
         magnitude_update = np.linalg.norm(update_iterate)
@@ -635,6 +632,24 @@ def initial_value(a1: np.ndarray, b1: np.ndarray, a2: np.ndarray, b2: np.ndarray
     guess[..., 2] = a1**2 - b1**2 - 2 * a2 * fac
     guess[..., 3] = 2 * a1 * b1 - 2 * b2 * fac
     return guess
+
+
+@numba.njit(cache=True)
+def solve_newton_update(jacobian, rhs, rcond):
+    """
+    Solve jacobian @ x = rhs using a Cholesky decomposition, falling back on a least
+    squares solution if the matrix is not (numerically) positive definite.
+
+    Note: the try/except lives in its own function on purpose. With the exception
+    handler inside the iteration loop of the solver, numba only caught the error in
+    the first iteration; from the second failing iteration on the "Matrix not
+    positive definite" error escaped to the caller (narrow distributions).
+    """
+    try:
+        return solve_cholesky(jacobian, rhs)
+    except Exception:
+        pass
+    return np.linalg.lstsq(jacobian, rhs, rcond=rcond)[0]
 
 
 @numba.njit(cache=True, fastmath=True)
